@@ -227,3 +227,7 @@ func Quiesce() { time.Sleep(20 * time.Millisecond) }
 // was started with schedule exploration (off = one fixed run-until-block schedule). Natively
 // the Go scheduler decides.
 func ExploreSchedules(on bool) {}
+
+// Stdout returns what the code under test printed to the process's standard output through
+// fmt.Print/Printf/Println (engine: captured by the fmt intrinsic). Natively it is not captured.
+func Stdout() string { return "" }
